@@ -147,6 +147,7 @@ func C18(c *Ctx) {
 				}
 				cs.AllowInvalid = o == 3
 				cs.NoRecover = o == 4
+				cs.Reader = ii%3 == 1 // through ParseReader (the input buffer is then the runtime's, not the caller's)
 				if u.G.UsesState || !u.HasFlag("-optimize-parser") {
 					cs.Init = []int{0, 4, 8, 0, 5}[(ii+o)%5] // different key sets per call (InitState)
 				}
@@ -205,6 +206,11 @@ func C18(c *Ctx) {
 				c.CovSet("configurations", fmt.Sprintf("G=%d GOMAXPROCS=%d iters=%d max_in_flight=%d", cf.g, cf.procs, cf.iters, sum.MaxInFlight))
 				for _, cs := range mine {
 					c.Distinct(cs.ID + cs.Pkg + string(cs.Input))
+				}
+				c.CovAdd("cases_through_parsereader", sum.ReaderCases)
+				if sum.Unstable > 0 {
+					c.Report(&Violation{Class: "C18/result-changed-later", Summary: fmt.Sprintf("%d results returned by ParseReader changed when ParseReader was called again (the value is not the caller's own): %s", sum.Unstable, strings.Join(sum.UnstableSample, " || ")),
+						Extra: map[string]any{"summary": sum}})
 				}
 				if sum.Mismatches > 0 {
 					c.Report(&Violation{Class: "C18/result-differs", Summary: fmt.Sprintf("%d of %d concurrent parses (G=%d, GOMAXPROCS=%d) returned something else than when run alone: %s", sum.Mismatches, sum.Parses, cf.g, cf.procs, strings.Join(sum.MismatchSample, " || ")),
